@@ -29,7 +29,7 @@ SPEC = {
              'different kind (.rules -> CSV -> corrupt -> none); distinct by (previous load, current load, op, item digest)'),
     'exhaustive': {'quick': False, 'thorough': False},
     'required_counters': ['history_ops', 'classify_vs_pristine', 'eval_vs_pristine', 'expression_cache_hits', 'regex_cache_hits',
-                          'immutability_snapshots', 'load_kind_transitions', 'pristine_queries', 'cached_tree_integrity_checks'],
+                          'immutability_snapshots', 'load_kind_transitions', 'pristine_queries', 'cached_tree_integrity_checks', 'cache_floods'],
     'assumptions': ['the pristine oracle is a process forked from a server that imported tally and did nothing else; in the thorough tier '
                     '2% of its answers are re-checked in a brand-new interpreter',
                     'transactions handed to normalize_merchant are rebuilt by it; in-place checks cover MerchantEngine.match, the rows and the rule tuples'],
@@ -330,6 +330,19 @@ def make_pool(rnd, tmp, k):
             r.match = alt if 'extract(' not in alt and '.replace' not in alt else 'len(%s) > 0' % alt
             r.category = 'BaitAlt%d' % i
     c = gen.rule_file(nrules=rnd.randint(1, 6))
+    if rnd.random() < .6:
+        # a file WITHOUT top-level variables whose winning rule computes a field named like a built-in; a later rule reads that built-in
+        c.variables = []
+        for r in c.rules:
+            r.match = r.match if not any(v in r.match.lower() for v in ('big', 'label')) else 'contains("COSTCO")'
+            r.lets = [(n, e) for n, e in r.lets if not any(v in e.lower() for v in ('big', 'label'))]
+            r.tags = [t for t in r.tags if 'label' not in t.lower() and 'big' not in t.lower()]
+            if not r.category and not [t for t in r.tags if t.strip()]:
+                r.tags = ['kept']
+            r.fields = [(n, e) for n, e in r.fields if not any(v in e.lower() for v in ('big', 'label'))]
+        c.rules.insert(0, R.Rule('FieldBait', rnd.choice(['contains("NETFLIX")', 'amount < 0', 'contains("UBER")']), 'FieldBaitCat', 'x',
+                                 fields=[rnd.choice([('amount', 'abs(amount) * 100000'), ('month', '99'), ('source', '"leaked"'), ('leak', '"1"')])]))
+        c.rules.insert(rnd.randint(1, len(c.rules)), R.Rule('ReadsBuiltin', rnd.choice(['amount > 50000', 'month == 99', 'source == "leaked"']), 'LeakCat', 'y'))
     files = {}
     for name, rf in (('A', a), ('B', b), ('C', c)):
         files[name] = {'path': O.write(os.path.join(d, name + '.rules'), R.render(rf)), 'kind': 'rules', 'text': R.render(rf)}
@@ -357,11 +370,25 @@ def run_sequence(rec, pool, pr, rnd, nops, tmp, fresh_rate):
     cur, handle, mode, prev_kind = None, None, 'first_match', None
     rows = ROWS7
     names = sorted(pool['files'])
+    flood_at = rnd.randrange(nops) if rnd.random() < .25 else -1
+    flood_salt = rnd.randrange(10 ** 6)
     for step in range(nops):
         rec.count('history_ops')
         if step:
             tree_integrity(rec, ep, rnd, 12, 'after step %d' % (step - 1), {'kind': 'history', 'step': step})
         op = rnd.choice(['load', 'load', 'classify', 'classify', 'classify', 'parse', 'eval', 'eval', 'engine', 'view', 'reload'])
+        if flood_at == step:
+            # a long-lived process has seen many distinct expressions and regular expressions (a big migrated rule file, many files):
+            # whatever bounded or keyed cache sits behind them, later answers must not change
+            nflood = rnd.choice([300, 700, 1500])
+            t0 = {'description': 'FLOOD', 'amount': 1.0}
+            for i in range(nflood):
+                try:
+                    ep.evaluate_transaction('regex("Fl%dod%d") or contains("fl%d")' % (i, flood_salt, i), t0)
+                except Exception:
+                    pass
+            rec.count('cache_floods')
+            rec.count('cache_flood_expressions', nflood)
         if cur is None or op == 'load':
             nm = rnd.choice(names)
             mode = rnd.choice(['first_match', 'first_match', 'most_specific'])
